@@ -6,14 +6,33 @@ measure this gives: the serve future resolves.
 -/
 namespace Shutdown
 
-/-- No running handler is waiting for a release from the outside. -/
+/-- No running handler is waiting for something from the outside: neither for a release by the
+scenario, nor (in its last phase) for the rest of its caller's request stream. -/
 def Unblocked (s : State) : Prop :=
   ∀ cn ∈ s.conns, cn.closed = false → ∀ k ∈ cn.calls, k.started = true → k.cancelled = false →
-    k.todo ≠ [] → 0 < k.permits ∨ s.freeRun = true
+    k.todo ≠ [] → (0 < k.permits ∨ s.freeRun = true) ∧ k.reqReady = true
+
+/-- Every caller that is still there has sent its complete request (always true of unary and
+server-streaming calls). -/
+def RequestsDone (s : State) : Prop :=
+  ∀ cn ∈ s.conns, ∀ k ∈ cn.calls, k.cancelled = false → k.reqLeft = 0
+
+theorem reqReady_of_reqLeft {k : Call} (h : k.reqLeft = 0) : k.reqReady = true := by
+  simp [Call.reqReady, h]
 
 /-- The signal has fired, or the incoming stream has ended, or the accept loop is already over. -/
 def ShutdownRequested (s : State) : Prop :=
   s.sigReady = true ∨ s.ended = true ∨ s.loopRunning = false
+
+/-- The server's own steps that do not take up anything new: every internal step except the
+completion of an HTTP/2 handshake and the acceptance of a new stream.  Draining a server needs only
+these. -/
+def Label.drains : Label → Bool
+  | .hsDone .. | .callStart .. => false
+  | l => l.internal
+
+theorem Label.drains_internal {l : Label} (h : l.drains = true) : l.internal = true := by
+  cases l <;> simp_all [Label.drains, Label.internal]
 
 theorem updConn_isSome {s : State} {c : Nat} {cn : Conn} {g : Conn → Bool} {f : Conn → Conn}
     (hc : s.conns[c]? = some cn) (hg : g cn = true) : (updConn s c g f).isSome = true := by
@@ -28,46 +47,46 @@ theorem exists_index {α} {l : List α} {a : α} (h : a ∈ l) : ∃ i : Nat, l[
   List.mem_iff_getElem?.1 h
 
 /-- A connection task that still holds its watcher can move (or hyper can, or a handler can). -/
-theorem conn_progress {s : State} {c : Nat} {cn : Conn} (hc : s.conns[c]? = some cn)
+theorem conn_progress_drains {s : State} {c : Nat} {cn : Conn} (hc : s.conns[c]? = some cn)
     (hk : ConnOk s.cfgGraceful s.cfgBiased s.sent s.resolved s.sigReady cn)
     (hw : cn.watcher = true) (hsent : s.sent = true) (hub : Unblocked s) :
-    ∃ l, l.internal = true ∧ (step s l).isSome = true := by
+    ∃ l, l.internal = true ∧ l.drains = true ∧ (step s l).isSome = true := by
   have hacc := (hk.watcher_acc hw).1
   have hcm := mem_of_getElem? hc
   cases hcl : cn.closed with
   | true =>
-    refine ⟨.connDropWatcher c, rfl, ?_⟩
+    refine ⟨.connDropWatcher c, rfl, rfl, ?_⟩
     simp only [step]
     exact updConn_isSome hc (by simp [hcl, hw])
   | false =>
     cases hpg : cn.peerGone with
     | true =>
-      refine ⟨.connBreak c, rfl, ?_⟩
+      refine ⟨.connBreak c, rfl, rfl, ?_⟩
       simp only [step]
       exact updConn_isSome hc (by simp [hacc, hcl, hyperConnDone, hpg])
     | false =>
       cases hss : cn.sawSig with
       | false =>
-        refine ⟨.connSig c, rfl, ?_⟩
+        refine ⟨.connSig c, rfl, rfl, ?_⟩
         simp only [step]
         exact updConn_isSome hc (by simp [hacc, hcl, hw, hsent, hss])
       | true =>
         have hgrc := hk.sawSig_graceful hss
         cases hhs : cn.hs with
         | false =>
-          refine ⟨.connBreak c, rfl, ?_⟩
+          refine ⟨.connBreak c, rfl, rfl, ?_⟩
           simp only [step]
           exact updConn_isSome hc (by simp [hacc, hcl, hyperConnDone, hgrc, hhs])
         | true =>
           cases hfin : cn.final with
           | false =>
-            refine ⟨.final c, rfl, ?_⟩
+            refine ⟨.final c, rfl, rfl, ?_⟩
             simp only [step]
             exact updConn_isSome hc (by simp [hacc, hcl, hhs, hgrc, hfin])
           | true =>
             cases hset : cn.calls.all Call.settled with
             | true =>
-              refine ⟨.connBreak c, rfl, ?_⟩
+              refine ⟨.connBreak c, rfl, rfl, ?_⟩
               simp only [step]
               exact updConn_isSome hc (by simp [hacc, hcl, hyperConnDone, hfin, hset])
             | false =>
@@ -80,7 +99,7 @@ theorem conn_progress {s : State} {c : Nat} {cn : Conn} (hc : s.conns[c]? = some
               obtain ⟨⟨hst, hcan⟩, hinc⟩ := hns
               have hco := hk.calls_ok k hkm
               by_cases hlt : k.recv < k.sent.length
-              · refine ⟨.deliver c j, rfl, ?_⟩
+              · refine ⟨.deliver c j, rfl, rfl, ?_⟩
                 simp only [step]
                 exact updCall_isSome hc hj (by simp [hcl, hpg, hcan, hlt])
               · have heq : k.recv = k.sent.length := by have := hco.recv_le; omega
@@ -90,23 +109,23 @@ theorem conn_progress {s : State} {c : Nat} {cn : Conn} (hc : s.conns[c]? = some
                   · simp [heq] at h
                 have hne : k.todo ≠ [] := by
                   intro h0; simp [h0] at htodo
-                have hperm := hub cn hcm hcl k hkm hst hcan hne
-                refine ⟨.produce c j, rfl, ?_⟩
+                obtain ⟨hperm, hrr⟩ := hub cn hcm hcl k hkm hst hcan hne
+                refine ⟨.produce c j, rfl, rfl, ?_⟩
                 simp only [step]
                 refine updCall_isSome hc hj ?_
                 rcases hperm with hp | hp
-                · simp [hcl, hst, hcan, hp, htodo]
-                · simp [hcl, hst, hcan, hp, htodo]
+                · simp [hcl, hst, hcan, hp, htodo, hrr]
+                · simp [hcl, hst, hcan, hp, htodo, hrr]
 
-theorem progress {s : State} (hg : Good s) (hgr : s.cfgGraceful = true)
+theorem progress_drains {s : State} (hg : Good s) (hgr : s.cfgGraceful = true)
     (hreq : ShutdownRequested s) (hub : Unblocked s) (hres : s.resolved = false) :
-    ∃ l, l.internal = true ∧ (step s l).isSome = true := by
+    ∃ l, l.internal = true ∧ l.drains = true ∧ (step s l).isSome = true := by
   cases hrun : s.loopRunning with
   | true =>
     have htk := hg.running_not_taken hrun
     cases hsr : s.sigReady with
     | true =>
-      exact ⟨.loopSig, rfl, by simp [step, hrun, sigBranchReady, hsr, htk]⟩
+      exact ⟨.loopSig, rfl, rfl, by simp [step, hrun, sigBranchReady, hsr, htk]⟩
     | false =>
       have hib : incomingBranch s = true := by
         simp [incomingBranch, sigBranchReady, hrun, hsr]
@@ -116,27 +135,34 @@ theorem progress {s : State} (hg : Good s) (hgr : s.cfgGraceful = true)
         · exact h
         · simp [hrun] at h
       by_cases hpe : 0 < s.pendingErrs
-      · exact ⟨.loopErr, rfl, by simp [step, hib, hpe]⟩
+      · exact ⟨.loopErr, rfl, rfl, by simp [step, hib, hpe]⟩
       · have hpe0 : s.pendingErrs = 0 := by omega
-        cases hall : s.conns.all (fun cn => !cn.pending) with
+        cases hall : s.conns.all (fun cn => !cn.pending || cn.inSet) with
         | true =>
-          exact ⟨.loopEnd, rfl, by simp [step, hib, hend, hpe0, hall]⟩
+          exact ⟨.loopEnd, rfl, rfl, by simp [step, hib, hend, hpe0, hall]⟩
         | false =>
-          have : ∃ cn ∈ s.conns, cn.pending = true := by simpa using hall
-          obtain ⟨cn, hcn, hp⟩ := this
+          have : ∃ cn ∈ s.conns, cn.pending = true ∧ cn.inSet = false := by simpa using hall
+          obtain ⟨cn, hcn, hp, hns⟩ := this
           obtain ⟨c, hc⟩ := exists_index hcn
-          refine ⟨.loopAccept c, rfl, ?_⟩
-          simp only [step, hib, if_true]
-          exact updConn_isSome hc hp
+          cases htls : cn.tls with
+          | false =>
+            refine ⟨.loopAccept c, rfl, rfl, ?_⟩
+            simp only [step, hib, if_true]
+            exact updConn_isSome hc (by simp [hp, htls])
+          | true =>
+            -- a TLS connection not yet handed to the handshake set: `ServerIoStream` takes it
+            refine ⟨.tlsTake c, rfl, rfl, ?_⟩
+            simp only [step, hib, if_true]
+            exact updConn_isSome hc (by simp [hp, htls, hns])
   | false =>
     cases had : s.afterDone with
-    | false => exact ⟨.afterLoop, rfl, by simp [step, hrun, had]⟩
+    | false => exact ⟨.afterLoop, rfl, rfl, by simp [step, hrun, had]⟩
     | true =>
       have hsent := hg.after_sent had hgr
       by_cases hw : ∃ cn ∈ s.conns, cn.watcher = true
       · obtain ⟨cn, hcn, hwt⟩ := hw
         obtain ⟨c, hc⟩ := exists_index hcn
-        exact conn_progress hc (hg.conns cn hcn) hwt hsent hub
+        exact conn_progress_drains hc (hg.conns cn hcn) hwt hsent hub
       · have h0 : receiverCount s = 0 := by
           unfold receiverCount
           rw [hg.mainRx_eq, had]
@@ -145,7 +171,13 @@ theorem progress {s : State} (hg : Good s) (hgr : s.cfgGraceful = true)
             intro cn hcn hwt
             exact hw ⟨cn, hcn, hwt⟩
           simp [this]
-        exact ⟨.resolve, rfl, by simp [step, had, hres, h0]⟩
+        exact ⟨.resolve, rfl, rfl, by simp [step, had, hres, h0]⟩
+
+theorem progress {s : State} (hg : Good s) (hgr : s.cfgGraceful = true)
+    (hreq : ShutdownRequested s) (hub : Unblocked s) (hres : s.resolved = false) :
+    ∃ l, l.internal = true ∧ (step s l).isSome = true := by
+  obtain ⟨l, hi, _, hs⟩ := progress_drains hg hgr hreq hub hres
+  exact ⟨l, hi, hs⟩
 
 /-- Iterating `progress`: from a state satisfying a property `P` that internal steps preserve and
 that guarantees progress, some finite run of internal steps reaches a resolved state. -/
@@ -218,6 +250,11 @@ theorem allClosed_step {s s' : State} {l : Label} (hrun : s.loopRunning = false)
   case loopAccept c =>
     simp only [step, incomingBranch, hrun, Bool.false_and] at h
     simp at h
+  case tlsTake c =>
+    simp only [step, incomingBranch, hrun, Bool.false_and] at h
+    simp at h
+  case tlsDone c => exact allClosed_updConn ha h (fun _ _ hc => hc)
+  case tlsFail c => exact allClosed_updConn ha h (fun _ _ hc => hc)
   case resolve =>
     simp only [step] at h
     split at h
@@ -246,19 +283,83 @@ theorem unblocked_of_allClosed {s : State} (hg : Good s) (ha : AllClosed s) : Un
 /-- decidable form of `Unblocked` -/
 def unblockedB (s : State) : Bool :=
   s.conns.all fun cn => cn.closed || cn.calls.all fun k =>
-    !k.started || k.cancelled || k.todo.isEmpty || decide (0 < k.permits) || s.freeRun
+    !k.started || k.cancelled || k.todo.isEmpty
+      || ((decide (0 < k.permits) || s.freeRun) && k.reqReady)
 
 theorem unblocked_of_bool {s : State} (h : unblockedB s = true) : Unblocked s := by
   intro cn hcn hcl k hk hst hcan hne
   simp only [unblockedB, List.all_eq_true, Bool.or_eq_true, Bool.not_eq_true',
-    decide_eq_true_eq, List.isEmpty_iff] at h
+    decide_eq_true_eq, List.isEmpty_iff, Bool.and_eq_true] at h
   rcases h cn hcn with h1 | h1
   · simp [hcl] at h1
-  · rcases h1 k hk with (((h2 | h2) | h2) | h2) | h2
+  · rcases h1 k hk with ((h2 | h2) | h2) | h2
     · simp [hst] at h2
     · simp [hcan] at h2
     · exact absurd h2 hne
-    · exact Or.inl h2
-    · exact Or.inr h2
+    · exact h2
+
+/-- the server's own steps never touch the request side of a call -/
+theorem requestsDone_step {s s' : State} {l : Label} (hd : RequestsDone s) (hi : l.internal = true)
+    (h : step s l = some s') : RequestsDone s' := by
+  have viaConn : ∀ {c : Nat} {g : Conn → Bool} {f : Conn → Conn},
+      updConn s c g f = some s' → (∀ x, (f x).calls = x.calls) → RequestsDone s' := by
+    intro c g f hu hf
+    obtain ⟨cn, hc, _, rfl⟩ := updConn_some hu
+    intro x hx
+    rcases mem_set hx with rfl | hx
+    · rw [hf]; exact hd cn (mem_of_getElem? hc)
+    · exact hd x hx
+  have viaCall : ∀ {c j : Nat} {g : Conn → Call → Bool} {f : Call → Call},
+      updCall s c j g f = some s' →
+      (∀ x, (f x).cancelled = x.cancelled ∧ (f x).reqLeft = x.reqLeft) → RequestsDone s' := by
+    intro c j g f hu hf
+    obtain ⟨cn, k, hc, hk, _, rfl⟩ := updCall_some hu
+    intro x hx
+    rcases mem_set hx with rfl | hx
+    · intro y hy
+      rcases mem_set hy with rfl | hy
+      · intro hcan
+        rw [(hf k).2]
+        exact hd cn (mem_of_getElem? hc) k (mem_of_getElem? hk) ((hf k).1 ▸ hcan)
+      · exact hd cn (mem_of_getElem? hc) y hy
+    · exact hd x hx
+  cases l <;> simp only [Label.internal] at hi <;> try (exact absurd hi (by decide))
+  case loopSig | loopErr | loopEnd | afterLoop =>
+    simp only [step] at h
+    split at h
+    · cases h; exact hd
+    · cases h
+  case loopAccept c =>
+    simp only [step] at h
+    split at h
+    · exact viaConn h (fun _ => rfl)
+    · cases h
+  case tlsTake c =>
+    simp only [step] at h
+    split at h
+    · exact viaConn h (fun _ => rfl)
+    · cases h
+  case tlsDone c => exact viaConn h (fun _ => rfl)
+  case tlsFail c => exact viaConn h (fun _ => rfl)
+  case resolve =>
+    simp only [step] at h
+    split at h
+    · cases h
+      intro x hx
+      obtain ⟨cn, hcn, rfl⟩ := List.mem_map.1 hx
+      exact hd cn hcn
+    · cases h
+  case connSig c => exact viaConn h (fun _ => rfl)
+  case connAge c => exact viaConn h (fun _ => rfl)
+  case connBreak c => exact viaConn h (fun _ => rfl)
+  case connDropWatcher c => exact viaConn h (fun _ => rfl)
+  case hsDone c => exact viaConn h (fun _ => rfl)
+  case final c => exact viaConn h (fun _ => rfl)
+  case callStart c j => exact viaCall h (fun _ => ⟨rfl, rfl⟩)
+  case produce c j =>
+    refine viaCall h (fun x => ?_)
+    unfold Call.produce
+    split <;> exact ⟨rfl, rfl⟩
+  case deliver c j => exact viaCall h (fun _ => ⟨rfl, rfl⟩)
 
 end Shutdown
